@@ -38,6 +38,35 @@ Definition sx_amsg (m : amsg) : sx :=
   SxL [sx_hdr (fst m); sx_list sx_payload (fst (snd m)); sx_list sx_payload (snd (snd m))].
 Definition sx_dgram (d : option (dgram body)) : sx :=
   match d with None => SxNone | Some d => sx_amsg (d_hdr d, d_body d) end.
+(** Fingerprints: the state recorded after EVERY call would otherwise repeat whole messages and keys (the literals
+    dominate the evaluation time).  Long byte strings inside the STATE are compared by length and first 8 octets;
+    what is SENT (the reply) and all inputs are compared in full. *)
+Definition sx_short (b : bytes) : sx :=
+  if Nat.leb (List.length b) 12 then sx_bytes b else SxL [sx_nat (List.length b); sx_bytes (firstn 8 b)].
+Definition fp_prop (p : proposal) : sx :=
+  SxL [SxZ (pr_num p); SxZ (pr_proto p); sx_short (pr_spi p); sx_list sx_tr (pr_trs p)].
+Definition fp_payload (p : payload) : sx :=
+  match p with
+  | P_SA ps => SxL [SxZ 33; sx_list fp_prop ps]
+  | P_KE g d => SxL [SxZ 34; SxZ g; sx_short d]
+  | P_IDi t d => SxL [SxZ 35; SxZ t; sx_short d]
+  | P_IDr t d => SxL [SxZ 36; SxZ t; sx_short d]
+  | P_AUTH m d => SxL [SxZ 39; SxZ m; sx_short d]
+  | P_NONCE n => SxL [SxZ 40; sx_short n]
+  | P_NOTIFY pr ty spi d => SxL [SxZ 41; SxZ pr; SxZ ty; sx_short spi; sx_short d]
+  | P_DELETE pr spis => SxL [SxZ 42; SxZ pr; sx_list sx_short spis]
+  | P_VENDOR d => SxL [SxZ 43; sx_short d]
+  | P_TSi l => SxL [SxZ 44; sx_list sx_ts l]
+  | P_TSr l => SxL [SxZ 45; sx_list sx_ts l]
+  | P_OTHER ty => SxL [SxZ ty]
+  end.
+Definition fp_amsg (m : amsg) : sx :=
+  SxL [sx_hdr (fst m); sx_list fp_payload (fst (snd m)); sx_list fp_payload (snd (snd m))].
+Definition fp_dgram (d : option (dgram body)) : sx :=
+  match d with None => SxNone | Some d => fp_amsg (d_hdr d, d_body d) end.
+Definition fp_kr (k : keyring) : sx :=
+  SxL [sx_short (sk_d k); sx_short (sk_ai k); sx_short (sk_ar k); sx_short (sk_ei k); sx_short (sk_er k);
+       sx_short (sk_pi k); sx_short (sk_pr k)].
 Definition sx_kr (k : keyring) : sx :=
   SxL [sx_bytes (sk_d k); sx_bytes (sk_ai k); sx_bytes (sk_ar k); sx_bytes (sk_ei k); sx_bytes (sk_er k);
        sx_bytes (sk_pi k); sx_bytes (sk_pr k)].
@@ -61,13 +90,13 @@ Definition sx_kop (k : kop) : sx :=
 Definition blank_spi (p : payload) : payload :=
   match p with P_SA ps => P_SA (map (fun x => x <| pr_spi := [] |>) ps) | _ => p end.
 Definition sx_req (r : option (Z * list payload)) : sx :=
-  match r with None => SxNone | Some (e, ps) => SxL [SxZ e; sx_list sx_payload (map blank_spi ps)] end.
+  match r with None => SxNone | Some (e, ps) => SxL [SxZ e; sx_list fp_payload (map blank_spi ps)] end.
 Definition sx_core (c : core) : sx :=
-  SxL [SxZ (st c); sx_bytes (my_spi_b c); sx_bytes (peer_spi_b c); sx_opt sx_kr (kr c);
+  SxL [SxZ (st c); sx_bytes (my_spi_b c); sx_bytes (peer_spi_b c); sx_opt fp_kr (kr c);
        sx_opt (fun p => sx_list sx_tr (pr_trs p)) (chosen c); sx_list sx_child (children c);
        sx_opt sx_child_id (creating c); sx_opt sx_child_id (rekeying c); sx_opt sx_child_id (deleting c);
-       sx_opt (fun d => SxZ (fst d)) (dh c); sx_req (request c); sx_opt sx_amsg (init_req c);
-       sx_opt sx_amsg (init_res c); sx_bool (match cprop c with Some _ => true | None => false end)].
+       sx_opt (fun d => SxZ (fst d)) (dh c); sx_req (request c); sx_opt fp_amsg (init_req c);
+       sx_opt fp_amsg (init_res c); sx_bool (match cprop c with Some _ => true | None => false end)].
 
 (* ---- decoders ------------------------------------------------------------------------------------ *)
 Definition bytes_of (x : sx) : bytes := match get_bytes x with Some b => b | None => [] end.
@@ -210,7 +239,7 @@ Section Run.
     SxL [sx_core (co i); sx_opt sx_core (new_sa i);
          SxL [SxZ (my_id P s); SxZ (peer_id P s); SxZ (rt_at P s); SxZ (rt_n P s); SxZ (dpd_at P s); SxZ (rek_at P s);
               SxZ (del_at P s); SxZ (Z.of_nat (List.length (pending P s)))];
-         sx_dgram (last_resp P s); sx_dgram (req_data P s);
+         fp_dgram (last_resp P s); fp_dgram (req_data P s);
          SxZ (Z.of_nat (List.length (tape i)))].
   Definition sx_result (r : msa * option (dgram body)) : sx :=
     SxL [sx_state (fst r); sx_dgram (snd r); sx_list sx_kop (kops (inner P (fst r)))].
@@ -295,17 +324,34 @@ Definition run_hdl (x : sx) : sx :=
   end.
 
 (** [run_hdl_check (SxL [input; SxL expected])] = SxL [] when every call agrees, otherwise the index of the first
-    call that differs and the model's output for it. *)
-Fixpoint first_mismatch (outs expected : list sx) (i : Z) : sx :=
-  match outs, expected with
-  | [], [] => SxL []
-  | o :: outs', e :: exp' => if sx_eqb o e then first_mismatch outs' exp' (i + 1) else SxL [SxZ i; o]
-  | o :: _, [] => SxL [SxZ i; o]
-  | [], _ :: _ => SxL [SxZ i; SxS "MODEL-STOPPED"]
+    call that differs and the model's output for it.  An expected state written [SxS "SAME"] stands for "the state
+    of this IkeSa is what it was after the previous call made on it" (most timer calls change nothing; repeating the
+    state would only make the literals larger). *)
+Definition call_id (c : sx) : Z := match c with SxL (_ :: SxZ id :: _) => id | _ => -1 end.
+Fixpoint prev_state (id : Z) (l : list (Z * sx)) : sx :=
+  match l with [] => SxNone | (k, v) :: r => if Z.eqb k id then v else prev_state id r end.
+Definition expand (prev : list (Z * sx)) (id : Z) (e : sx) : sx :=
+  match e with
+  | SxL (SxS "SAME" :: rest) => SxL (prev_state id prev :: rest)
+  | _ => e
+  end.
+Definition state_of (o : sx) : sx := match o with SxL (s :: _) => s | _ => SxNone end.
+Fixpoint first_mismatch (calls outs expected : list sx) (prev : list (Z * sx)) (i : Z) : sx :=
+  match calls, outs, expected with
+  | _, [], [] => SxL []
+  | c :: calls', o :: outs', e :: exp' =>
+      let id := call_id c in
+      if sx_eqb o (expand prev id e) then first_mismatch calls' outs' exp' ((id, state_of o) :: prev) (i + 1)
+      else SxL [SxZ i; o]
+  | _, o :: _, _ => SxL [SxZ i; o]
+  | _, [], _ :: _ => SxL [SxZ i; SxS "MODEL-STOPPED"]
   end.
 Definition run_hdl_check (x : sx) : sx :=
   match x with
-  | SxL [inp; SxL expected] =>
-      match run_hdl inp with SxL outs => first_mismatch outs expected 0 | o => o end
+  | SxL [SxL [confs; tables; SxL calls]; SxL expected] =>
+      match run_hdl (SxL [confs; tables; SxL calls]) with
+      | SxL outs => first_mismatch calls outs expected [] 0
+      | o => o
+      end
   | _ => bad_input
   end.
